@@ -360,6 +360,27 @@ def bounded(tier, seed):
             r = subprocess.run([sys.executable, '-c', code] + list(order), capture_output=True, text=True, env=env, timeout=120)
             return js.loads(r.stdout.strip().splitlines()[-1])
 
+        def t_late():
+            # a reader registered AFTER the package was imported (a user's subclass) is found by name and preferred for its suffix,
+            # like the built-in ones -- in a fresh interpreter, so that the registry of this process stays as it is
+            import subprocess, sys
+            code = ("import sys, os, warnings\nwarnings.simplefilter('ignore')\nimport PseudoNetCDF as pnc\nfrom PseudoNetCDF import PseudoNetCDFFile, pncopen, getreader\n"
+                    "from PseudoNetCDF._getreader import getreaderdict\ngetreaderdict()\n"
+                    "class verifsounding(PseudoNetCDFFile):\n"
+                    "    @classmethod\n    def isMine(cls, path, *a, **k):\n        return open(path).read(5) == 'SOUND'\n"
+                    "    def __init__(self, path, *a, **k):\n        self.createDimension('z', 2)\n        import numpy as np\n        self.createVariable('z', 'f', ('z',), values=np.array([1., 2.], 'f'))\n"
+                    "class verifprofile(verifsounding):\n    pass\n"
+                    "p = sys.argv[1]\nopen(p, 'w').write('SOUNDING 1 2')\n"
+                    "r = getreader(p)\nassert r is verifprofile, 'auto-detection of x.verifprofile chose %s' % r.__name__\n"
+                    "f = pncopen(p, format='verifprofile')\nassert type(f) is verifprofile, type(f).__name__\n"
+                    "g = pncopen(p, format='verifsounding')\nassert type(g) is verifsounding, type(g).__name__\nprint('OK')\n")
+            env = dict(os.environ, PYTHONPATH=os.path.join(os.environ.get('VERIF_REPO', '/repo'), 'src'), PYTHONDONTWRITEBYTECODE='1')
+            r = subprocess.run([sys.executable, '-c', code, os.path.join(tmp, 'late.verifprofile')], capture_output=True, text=True, env=env, timeout=120)
+            if r.stdout.strip().endswith('OK'):
+                return None
+            return 'a reader registered after import is not found: ' + (r.stderr.strip().splitlines() or ['?'])[-1][:200]
+        run.case('C15:a reader registered after the package import is found by name and by suffix', 'verifprofile', t_late)
+
         def t_h5():
             # the answer for an HDF5-based file must not depend on which HDF5-based file the process looked at first
             good = pool['h5_good'][1]
